@@ -91,7 +91,7 @@ func short(s string) string {
 
 func hasLeak(body []byte) string {
 	b := string(body)
-	for _, u := range vkit.UserIDs {
+	for _, u := range vkit.AllUserIDs {
 		usr := vkit.Users[u]
 		for _, needle := range []string{usr.Email, usr.Username, usr.Phone} {
 			if needle != "" && strings.Contains(b, needle) {
